@@ -237,10 +237,6 @@ def SendWindow.acceptIncoming (w : SendWindow) (h : Hdr) (now : Nat) : Except Fa
       | .error e => .error e
       | .ok l => .ok { w with level := l, sentAt := some now }
 
-/-- `SendWindow::is_full` -/
-def SendWindow.isFull (w : SendWindow) (r : RecvWindow) : Bool :=
-  w.level == 0 || (w.level == 1 && r.ackLevel == 0)
-
 def SendWindow.nextSeq (w : SendWindow) : Nat := (w.lastSent + 1) % 256
 
 /-- `SendWindow::post_send` -/
@@ -318,6 +314,11 @@ def RecvWindow.acceptIncoming (r : RecvWindow) (h : Hdr) (payload : List Nat) (m
 /-- `RecvWindow::pending_ack` -/
 def RecvWindow.pendingAck (r : RecvWindow) : Option Nat :=
   if r.ackLevel > 0 && r.msgCt == 0 then some r.ackSeq else none
+
+/-- `SendWindow::is_full` (fixed tree: the last slot is kept for a segment that really carries an
+acknowledgement, `pending_ack().is_none()` instead of `ack_level == 0`) -/
+def SendWindow.isFull (w : SendWindow) (r : RecvWindow) : Bool :=
+  w.level == 0 || (w.level == 1 && r.pendingAck.isNone)
 
 /-- `RecvWindow::post_send` -/
 def RecvWindow.postSend (r : RecvWindow) : Except Fail RecvWindow :=
